@@ -1,8 +1,21 @@
 (** C17 — saving a worklist: the file content is exactly the records joined by CRLF, with no trailing
-    line break and no residue of an older file; reading back returns the records; names without a
-    .gwl extension are refused; string conversion shows the same records.
-    Statements only; proofs live in Proofs/SaveProofs.v. *)
-From Robo Require Import Prelude Str Save SaveProofs.
+    line break and no residue of an older file or an earlier save; reading back returns the records; paths
+    whose last component has no .gwl extension are refused; leaving a [with] block writes the records appended
+    inside the block; string conversion shows the same records.
+    Statements only; proofs live in Proofs/SaveProofs.v.
+
+    What is DEFINITIONAL here (the file model of Model/Save.v, not a theorem about the operating system):
+    a successful [save] leaves the followed file with exactly [encode_file recs] (the library unlinks the file
+    and opens it with mode "w"); a refused [save] leaves it as it was (the assertion is tested first).
+    [C17_overwrite], [C17_resave], [C17_exit_exception], [C17_enter], [C17_str] unfold these definitions.
+    What is PROVED about the functions: the text produced ([encode_file] through the newline translation),
+    its reading back, the name test on arbitrary paths, the [with] block composition.
+
+    Latin-1 (modelling assumption, no theorem): records are [string]s, i.e. lists of [ascii]; every character
+    of the file is therefore one byte 0..255 and [encoding="latin_1"] is the identity on them. A record with a
+    character outside Latin-1 makes the library raise UnicodeEncodeError (after the old file was already
+    replaced by an empty one); such a record cannot be expressed in the model. Paths are POSIX paths. *)
+From Robo Require Import Prelude Str Records Params Save SaveProofs.
 Local Open Scope string_scope.
 
 (** the record contains no carriage return (ASCII 13) / no line feed (ASCII 10) *)
@@ -13,10 +26,41 @@ Definition gwl_mixes : list string := ["gwl"; "gwL"; "gWl"; "gWL"; "Gwl"; "GwL";
 
 (** ** content and round trip *)
 
-Theorem C17_roundtrip : forall recs, recs <> [] -> Forall no_cr recs ->
+(** the text written, for all records: each record with its LFs turned into CRLF, CRLF between records *)
+Theorem C17_content : forall recs, encode_file recs = join crlf (map translate_lf recs).
+Proof. exact sv_encode_join. Qed.
+Print Assumptions C17_content.
+
+(** for records without a line feed: exactly the records joined by CRLF *)
+Theorem C17_content_crlf : forall recs, Forall no_lf recs -> encode_file recs = join crlf recs.
+Proof. exact sv_encode_nolf. Qed.
+Print Assumptions C17_content_crlf.
+
+Theorem C17_roundtrip : forall recs, recs <> [] -> Forall no_cr recs -> Forall no_lf recs ->
   decode_file (encode_file recs) = recs.
 Proof. exact sv_roundtrip. Qed.
 Print Assumptions C17_roundtrip.
+
+(** the carriage-return hypothesis is not needed: a bare CR inside a record is read back as it is *)
+Theorem C17_roundtrip_cr : forall recs, recs <> [] -> Forall no_lf recs ->
+  decode_file (encode_file recs) = recs.
+Proof. exact sv_roundtrip_nolf. Qed.
+Print Assumptions C17_roundtrip_cr.
+
+(** the line-feed hypothesis is needed: full statement without it
+      forall recs, recs <> [] -> Forall no_cr recs -> decode_file (encode_file recs) = recs
+    is false; the record "a\nb" is written as a CRLF b and read back as two records *)
+Theorem C17_roundtrip_refuted : exists recs, recs <> [] /\ Forall no_cr recs /\
+  decode_file (encode_file recs) <> recs /\
+  encode_file recs = "a" ++ crlf ++ "b" ++ crlf ++ "c" /\ decode_file (encode_file recs) = ["a"; "b"; "c"].
+Proof. exact sv_roundtrip_refuted. Qed.
+Print Assumptions C17_roundtrip_refuted.
+
+(** what is read back in general: the worklist's text split at LF *)
+Theorem C17_readback : forall recs,
+  decode_file (encode_file recs) = split_on (ascii_of_nat 10) (str_worklist recs).
+Proof. exact sv_decode_encode. Qed.
+Print Assumptions C17_readback.
 
 (** an empty worklist gives an empty file, which reads back as one empty line *)
 Theorem C17_roundtrip_empty : encode_file [] = "" /\ decode_file "" = [""].
@@ -25,52 +69,175 @@ Print Assumptions C17_roundtrip_empty.
 
 (** nothing follows the last record *)
 Theorem C17_no_trailing_break : forall recs r,
-  encode_file (recs ++ [r])%list = encode_file recs ++ (match recs with [] => "" | _ :: _ => crlf end) ++ r.
+  encode_file (recs ++ [r])%list =
+  encode_file recs ++ (match recs with [] => "" | _ :: _ => crlf end) ++ translate_lf r.
 Proof. exact sv_no_trailing_break. Qed.
 Print Assumptions C17_no_trailing_break.
 
-(** an accepted name: the new content replaces whatever was there; a refused name: nothing is written *)
-Theorem C17_overwrite : forall name old recs,
-  (name_ok name = true -> save name old recs = (Some (encode_file recs), None)) /\
-  (name_ok name = false -> save name old recs = (old, Some EReject)).
+Theorem C17_no_trailing_break_crlf : forall recs r, no_lf r ->
+  encode_file (recs ++ [r])%list = encode_file recs ++ (match recs with [] => "" | _ :: _ => crlf end) ++ r.
+Proof. exact sv_no_trailing_break_nolf. Qed.
+Print Assumptions C17_no_trailing_break_crlf.
+
+(** ** save (definitional: file model) *)
+
+(** an accepted path: the new content replaces whatever was there; a refused path: nothing is written *)
+Theorem C17_overwrite : forall path old recs,
+  (name_ok path = true -> save path old recs = (Some (encode_file recs), None)) /\
+  (name_ok path = false -> save path old recs = (old, Some EReject)).
 Proof. exact sv_overwrite. Qed.
 Print Assumptions C17_overwrite.
 
+(** repeated saves: no residue of the earlier save nor of any older content *)
+Theorem C17_resave : forall path old r1 r2, save path (fst (save path old r1)) r2 = save path old r2.
+Proof. exact sv_resave. Qed.
+Print Assumptions C17_resave.
+
+(** ** the [with] block *)
+
+(** construction and entering start from an empty record list and keep the path *)
+Theorem C17_init : forall path, wf_recs (wl_init path) = [] /\ wf_path (wl_init path) = path.
+Proof. exact sv_init. Qed.
+Print Assumptions C17_init.
+
+Theorem C17_enter : forall w, wf_recs (wl_enter w) = [] /\ wf_path (wl_enter w) = wf_path w.
+Proof. exact sv_enter. Qed.
+Print Assumptions C17_enter.
+
+(** leaving the block writes exactly the records appended inside it, whatever the worklist held before
+    entering, whatever the file held, and whether or not an exception leaves the block *)
+Theorem C17_with_block : forall w p rs raised old, wf_path w = Some p -> name_ok p = true ->
+  wl_exit (wl_append (wl_enter w) rs) raised old = (Some (encode_file rs), None).
+Proof. exact sv_with_block. Qed.
+Print Assumptions C17_with_block.
+
+(** a path without .gwl: leaving the block raises and the file is untouched *)
+Theorem C17_with_block_refused : forall w p rs raised old, wf_path w = Some p -> name_ok p = false ->
+  wl_exit (wl_append (wl_enter w) rs) raised old = (old, Some EReject).
+Proof. exact sv_with_block_refused. Qed.
+Print Assumptions C17_with_block_refused.
+
+(** no path given at construction: leaving the block touches nothing and raises nothing *)
+Theorem C17_exit_nopath : forall w raised old, wf_path w = None -> wl_exit w raised old = (old, None).
+Proof. exact sv_exit_nopath. Qed.
+Print Assumptions C17_exit_nopath.
+
+(** leaving = save to the path given at construction *)
+Theorem C17_exit_is_save : forall w p raised old, wf_path w = Some p -> wl_exit w raised old = wl_save w p old.
+Proof. exact sv_exit_is_save. Qed.
+Print Assumptions C17_exit_is_save.
+
+Theorem C17_exit_exception : forall w old, wl_exit w true old = wl_exit w false old.
+Proof. exact sv_exit_exception. Qed.
+Print Assumptions C17_exit_exception.
+
+(** the same object used for two blocks in a row: the second file has the second block's records only *)
+Theorem C17_with_twice : forall w p r1 r2 x1 x2 old, wf_path w = Some p -> name_ok p = true ->
+  let w1 := wl_append (wl_enter w) r1 in
+  let f1 := fst (wl_exit w1 x1 old) in
+  wl_exit (wl_append (wl_enter w1) r2) x2 f1 = (Some (encode_file r2), None).
+Proof. exact sv_with_twice. Qed.
+Print Assumptions C17_with_twice.
+
+(** a [save] at any moment writes the records held at that moment *)
+Theorem C17_wl_save : forall w p old, name_ok p = true ->
+  wl_save w p old = (Some (encode_file (wf_recs w)), None).
+Proof. exact sv_wl_save. Qed.
+Print Assumptions C17_wl_save.
+
+(** the tie to the record-level worklist state: its lines are the rendered records; emitting appends their
+    renderings; a block on that state writes the renderings of the records emitted inside *)
+Theorem C17_lines_emit : forall w rs, ws_lines (emit w rs) = (ws_lines w ++ map render rs)%list.
+Proof. exact sv_ws_emit. Qed.
+Print Assumptions C17_lines_emit.
+
+Theorem C17_state_with_block : forall p w rs raised old, name_ok p = true ->
+  wl_exit (ws_file (Some p) (emit (ws_clear w) rs)) raised old = (Some (encode_file (map render rs)), None).
+Proof. exact sv_ws_with_block. Qed.
+Print Assumptions C17_state_with_block.
+
 (** ** the file-name check *)
 
-(** exact characterisation: a non-empty stem followed by a dot and one of the spellings of gwl *)
-Theorem C17_name : forall name,
-  name_ok name = true <-> exists base x, base <> "" /\ name = base ++ "." ++ x /\ lower x = "gwl".
+(** exact characterisation for arbitrary paths: the last path component is a non-empty stem followed by a dot
+    and one of the spellings of gwl (the stem may itself contain or end in dots: "a..gwl", "..gwl" are accepted
+    by [Path.suffix]; ".gwl", "a.gwl.", "dir/.gwl", "x.gwl/out" are not) *)
+Theorem C17_name : forall path,
+  name_ok path = true <->
+  exists stem x, stem <> "" /\ basename path = stem ++ "." ++ x /\ lower x = "gwl".
 Proof. exact sv_name_iff. Qed.
 Print Assumptions C17_name.
+
+(** the last component: what is left of the path after a directory prefix ... *)
+Theorem C17_basename_dir : forall dir name,
+  contains_char "/"%char name = false -> name <> "" -> name <> "." ->
+  basename (dir ++ "/" ++ name) = name /\ basename name = name.
+Proof. exact sv_basename_dir_both. Qed.
+Print Assumptions C17_basename_dir.
+
+(** ... trailing "/", "/." and empty components are skipped ... *)
+Theorem C17_basename_skip : forall dir q, path_parts q = [] -> basename (dir ++ "/" ++ q) = basename dir.
+Proof. exact sv_basename_skip. Qed.
+Print Assumptions C17_basename_skip.
+
+(** ... and it is a single component *)
+Theorem C17_basename_component : forall p,
+  contains_char "/"%char (basename p) = false /\ basename p <> "." /\ (basename p = "" <-> path_parts p = []).
+Proof. exact sv_basename_component. Qed.
+Print Assumptions C17_basename_component.
+
+(** on a name without "/" (what the correspondence harness passes) the check is the check on the name *)
+Theorem C17_name_plain : forall name, contains_char "/"%char name = false -> name_ok name = file_ok name.
+Proof. exact sv_name_plain. Qed.
+Print Assumptions C17_name_plain.
+
+(** only the last component counts: a directory called x.gwl does not help, a dot in a directory does no harm *)
+Theorem C17_name_dir : forall dir name, contains_char "/"%char name = false -> name <> "" -> name <> "." ->
+  name_ok (dir ++ "/" ++ name) = file_ok name.
+Proof. exact sv_name_dir. Qed.
+Print Assumptions C17_name_dir.
 
 Theorem C17_name_spellings : forall x, lower x = "gwl" <-> In x gwl_mixes.
 Proof. exact sv_lower_gwl. Qed.
 Print Assumptions C17_name_spellings.
 
-Theorem C17_name_gwl : forall base x, base <> "" -> lower x = "gwl" -> name_ok (base ++ "." ++ x) = true.
-Proof. exact sv_name_gwl. Qed.
+Theorem C17_name_gwl : forall dir stem x, stem <> "" -> contains_char "/"%char stem = false -> lower x = "gwl" ->
+  name_ok (dir ++ "/" ++ stem ++ "." ++ x) = true /\ name_ok (stem ++ "." ++ x) = true.
+Proof. exact sv_name_path_gwl. Qed.
 Print Assumptions C17_name_gwl.
 
-(** only the part after the last dot counts *)
+(** one component: only the part after the last dot counts *)
 Theorem C17_name_ext : forall pre x, pre <> "" -> contains_char "."%char x = false ->
-  name_ok (pre ++ "." ++ x) = String.eqb (lower x) "gwl".
-Proof. exact sv_name_ext. Qed.
+  file_ok (pre ++ "." ++ x) = String.eqb (lower x) "gwl".
+Proof. exact sv_file_ext. Qed.
 Print Assumptions C17_name_ext.
 
 (** no dot after the first character (this includes the hidden file ".gwl" and the empty name) *)
-Theorem C17_name_nodot : forall name, contains_char "."%char (str_tail name) = false -> name_ok name = false.
-Proof. exact sv_name_nodot. Qed.
+Theorem C17_name_nodot : forall name, contains_char "."%char (str_tail name) = false -> file_ok name = false.
+Proof. exact sv_file_nodot. Qed.
 Print Assumptions C17_name_nodot.
 
 (** a further extension after .gwl *)
 Theorem C17_name_double : forall base x, contains_char "."%char x = false -> lower x <> "gwl" ->
-  name_ok (base ++ ".gwl" ++ "." ++ x) = false.
-Proof. exact sv_name_double. Qed.
+  file_ok (base ++ ".gwl" ++ "." ++ x) = false.
+Proof. exact sv_file_double. Qed.
 Print Assumptions C17_name_double.
+
+(** [Path.suffix] itself: the three cases cover every name *)
+Theorem C17_suffix : forall pre x,
+  (pre <> "" -> x <> "" -> contains_char "."%char x = false -> suffix (pre ++ String "."%char x) = String "."%char x) /\
+  suffix (pre ++ ".") = "" /\
+  (contains_char "."%char (str_tail pre) = false -> suffix pre = "").
+Proof. exact sv_suffix_spec. Qed.
+Print Assumptions C17_suffix.
+
+Theorem C17_suffix_cases : forall name, contains_char "."%char (str_tail name) = false \/
+  exists pre x, pre <> "" /\ name = pre ++ String "."%char x /\ contains_char "."%char x = false.
+Proof. exact sv_name_shape. Qed.
+Print Assumptions C17_suffix_cases.
 
 (** ** string conversion *)
 
+(** definitional: [__str__] = [__repr__] = "\n".join(self) *)
 Theorem C17_str : forall recs, str_worklist recs = join lf recs.
 Proof. exact sv_str. Qed.
 Print Assumptions C17_str.
@@ -91,13 +258,50 @@ Example C17_example :
   save "out/plan.GwL" (Some "old content, longer than the new one ..........................................")
        recs = (Some (encode_file recs), None) /\
   save "plan.gwl.txt" (Some "old") recs = (Some "old", Some EReject) /\
-  save ".gwl" None recs = (None, Some EReject).
+  save ".gwl" None recs = (None, Some EReject) /\
+  save "dir/.gwl" None recs = (None, Some EReject) /\
+  save "x.gwl/out" None recs = (None, Some EReject) /\
+  save "dir.d/out.gwl" None recs = (Some (encode_file recs), None).
+Proof. vm_compute. repeat split. Qed.
+
+(** the name test on the paths checked against Python 3.12 [Path(p).suffix.lower() == ".gwl"] *)
+Example C17_example_paths :
+  map name_ok ["dir/.gwl"; "x.gwl/out"; "dir.d/out.gwl"; "a.gwl."; "a..gwl"; "..gwl"; ".gwl"; "a.gwl"; "a.GwL";
+               "...gwl"; "dir/a.gwl/"; "a.gwl/."; "a.gwl/.."; "./a.gwl"; ""; "/"; "."; ".."; "a."; "x//b.gwl";
+               ".a.gwl"; " .gwl"; "a. gwl"; "a.gwl "; ".gwl.gwl"; "..gwl."; "a.b.gwl"]
+  = [false; false; true; false; true; true; false; true; true;
+     true; true; true; false; true; false; false; false; false; false; true;
+     true; true; false; false; true; false; true] /\
+  map basename ["dir/.gwl"; "x.gwl/out"; "dir/a.gwl/"; "a.gwl/."; "a.gwl/.."; "/"; "x//b.gwl"]
+  = [".gwl"; "out"; "a.gwl"; "a.gwl"; ".."; ""; "b.gwl"] /\
+  map suffix ["a.gwl."; "a..gwl"; ".gwl"; "a.tar.GwL"; "a"] = [""; ".gwl"; ""; ".GwL"; ""].
 Proof. vm_compute. repeat split. Qed.
 
 Example C17_example_hyps :
   Forall no_cr ["A;Src;;;1;;10.00;;;"; ""; "B;"] /\ Forall no_lf ["A;Src;;;1;;10.00;;;"; ""; "B;"].
 Proof. split; repeat constructor. Qed.
 
-(** the hypothesis of C17_roundtrip is needed: a record containing CRLF is read back as two *)
-Example C17_example_cr : decode_file (encode_file ["a" ++ crlf ++ "b"; "c"]) = ["a"; "b"; "c"].
+(** a [with] block on an object that already held a record, file already present and longer, exception or not *)
+Example C17_example_with :
+  let w := wl_append (wl_init (Some "run/out.gwl")) ["C;stale"] in
+  let old := Some "OLD;OLD;OLD;OLD;OLD;OLD;OLD;OLD" in
+  wf_recs (wl_enter w) = [] /\
+  wl_exit (wl_append (wl_enter w) ["W1;"; "B;"]) false old = (Some ("W1;" ++ crlf ++ "B;"), None) /\
+  wl_exit (wl_append (wl_enter w) ["W1;"; "B;"]) true old = (Some ("W1;" ++ crlf ++ "B;"), None) /\
+  wl_exit (wl_append (wl_enter (wl_init None)) ["F;"]) false old = (old, None) /\
+  wl_exit (wl_append (wl_enter (wl_init (Some "out.txt"))) ["F;"]) false None = (None, Some EReject) /\
+  save "out.gwl" (fst (save "out.gwl" old ["C;long long long"; "C;long long long"])) ["B;"] = (Some "B;", None).
+Proof. vm_compute. repeat split. Qed.
+
+(** a record containing CRLF: the LF is translated once more, the record is read back as two, the first
+    keeping its CR (library: file a CR CR LF b CR LF c, read back ["a\r"; "b"; "c"]) *)
+Example C17_example_cr :
+  encode_file ["a" ++ crlf ++ "b"; "c"] = "a" ++ String (ascii_of_nat 13) crlf ++ "b" ++ crlf ++ "c" /\
+  decode_file (encode_file ["a" ++ crlf ++ "b"; "c"]) = ["a" ++ String (ascii_of_nat 13) ""; "b"; "c"].
+Proof. vm_compute. split; reflexivity. Qed.
+
+(** bare CRs are kept (library: file a CR b CR LF c CR CR LF CR d, read back unchanged) *)
+Example C17_example_bare_cr :
+  let c := String (ascii_of_nat 13) "" in
+  decode_file (encode_file ["a" ++ c ++ "b"; "c" ++ c; c ++ "d"]) = ["a" ++ c ++ "b"; "c" ++ c; c ++ "d"].
 Proof. vm_compute. reflexivity. Qed.
